@@ -1,7 +1,7 @@
 #!/bin/bash
 # runs every check in the thorough tier, one after the other, and prints a one-line summary each
 cd "$(dirname "$0")/.."
-for c in C19 C17 C10 C04 C05 C15 C16 C20 C06 C09 C18 C12 C13 C07 C02 C03 C08 C14 C01 C11; do
+for c in C19 C14 C07 C18 C12 C13 C02 C03 C08 C01 C11; do
   s=$(date +%s); ./check $c --tier thorough > /tmp/thorough_$c.log 2>&1; rc=$?; e=$(date +%s)
   echo "$c rc=$rc $((e-s))s viol=$(grep -c VIOLATION /tmp/thorough_$c.log) $(grep -E '^\[C..\] tier' /tmp/thorough_$c.log)"
   grep -E "VIOLATION|HARNESS|key=" /tmp/thorough_$c.log | head -5
